@@ -56,3 +56,8 @@ PROPS["C07"] = {"units": [
     rapid_unit("limits-hardlimit-tag", "pktbuf", "^TestC07Limits$", 1000, 16 * 8000, overlay="plain",
                tags=["packetioSizeHardlimit"], env={"VERIF_HARDLIMIT": "1"}),
 ]}
+
+PROPS["C20"] = {"units": [
+    plain_unit("sweep", "xor", "^TestC20Sweep$", overlay="plain"),
+    rapid_unit("rapid", "xor", "^TestC20Rapid$", 30000, 16 * 300000, overlay="plain"),
+]}
